@@ -82,10 +82,13 @@ Rejuvenate ==
                 sel |-> Range(Selected(L, FreshView(L))),
                 ver |-> rootVer]
 
-EditStep ==
-    \/ \E l \in Levels, P \in Preds : SetPred(l, P)
-    \/ \E l \in Levels, i \in 1..N : Exclude(l, i) \/ Include(l, i)
-    \/ \E v \in {1, 2} : SetRootVer(v)
+\* edits restricted to given levels / predicates (for focused enumerations)
+EditStepR(PL, ML, PS, VS) ==
+    \/ \E l \in PL, P \in PS : SetPred(l, P)
+    \/ \E l \in ML, i \in 1..N : Exclude(l, i) \/ Include(l, i)
+    \/ \E v \in VS : SetRootVer(v)
+
+EditStep == EditStepR(Levels, Levels, Preds, {1, 2})
 
 HNext == EditStep \/ Rejuvenate
 
